@@ -93,7 +93,7 @@ def run_mutant(m, args):
             res["error"] = "apply: " + out[-400:]
             return res
         if m.get("tests") != "skip" and not args.no_tests:
-            rc, out = sh("/venv/bin/python -m pytest -q -p no:cacheprovider --timeout=900 -x -q 2>&1 | grep -E "passed|failed|error" | tail -1", cwd=wt, env=dict(os.environ, PYTHONPATH=os.path.join(wt, "src")))
+            rc, out = sh("/venv/bin/python -m pytest -q -p no:cacheprovider --timeout=900 -x 2>&1 | grep -E '[0-9]+ (passed|failed)' | tail -1", cwd=wt, env=dict(os.environ, PYTHONPATH=os.path.join(wt, "src")))
             res["tests"] = out.strip().split("\n")[-1][:120]
             res["tests_pass"] = bool(re.search(r"\b\d+ passed", out)) and "failed" not in out and "error" not in out.lower()
         env = dict(os.environ, PTA_REPO=wt, PTA_EVIDENCE_DIR=os.path.join(BASE, m["name"], "evidence"), PTA_REPLAY_DIR=os.path.join(BASE, m["name"], "replays"), VERIF_JOBS=str(args.jobs))
